@@ -105,6 +105,7 @@ func (d *Data) GetLabelMutationHistory(w http.ResponseWriter, fromUUID, toUUID d
 	i := 0
 	for sv := range supervoxelSet {
 		supervoxels[i] = sv
+		i++
 	}
 
 	// Get the starting version labels mapped to the target's supervoxels -> origBodies set
